@@ -376,7 +376,13 @@ fn judge_c03(id: &str, lines: &[String], model: &[String], out: &mut Vec<String>
                         }
                         // an instance that lacked UniqueId gets the nil default (0,0,0) in the file; building a WeakDom from the
                         // decoded forest regenerates nil / repeated ids (WeakDom's uniqueness rule, C12), exactly as for the reader
-                        if x.key == "default-uniqueid-regenerated" {
+                        if x.key == "default-uniqueid-regenerated" || (x.key == "uniqueid-regenerated" && x.text.contains("expected `UId 0 0 0`")) {
+                            continue;
+                        }
+                        // which value the serializer fills in for an instance that lacked a property its class-mates carry is C01's
+                        // normalisation (d) / C08; C03 speaks about the values that were in the DOM
+                        if x.key.starts_with("default-") {
+                            *st.entry("c03_default_fill_differences_left_to_C01".into()).or_default() += 1;
                             continue;
                         }
                         // docs/binary.md has no section for type id 0x21 (SecurityCapabilities): the column is an unknown type to the document
@@ -566,28 +572,18 @@ fn judge_c04(id: &str, lines: &[String], model: &[String], out: &mut Vec<String>
     if !base_ok {
         return;
     }
-    if let Some(h) = get("bytes literal ") {
-        if h != "SAME" {
-            if let Ok(b) = unhex(&h) {
-                *st.entry("c04_literal_files".into()).or_default() += 1;
-                let r = real_dom_lines(&b);
-                let bad = match &r {
-                    Ok(got) => first_diff(&exp, got),
-                    Err(e) => Some(format!("the reader fails: {}", cut(e))),
-                };
-                if let Some(d) = bad {
-                    let text = lines.join("\n");
-                    if text.contains(" V 1f ") {
-                        out.push(format!("{id} C04 doc-uniqueid-layout variant=literal tags={tagstr} {d}"));
-                    }
-                    if text.contains(" V 1c ") {
-                        out.push(format!("{id} C04 doc-sharedstring-index-endianness variant=literal tags={tagstr} {d}"));
-                    }
-                    if text.contains(" V 22 ") {
-                        out.push(format!("{id} C04 doc-content-sourcetypes variant=literal tags={tagstr} {d}"));
-                    }
-                    if !text.contains(" V 1f ") && !text.contains(" V 1c ") && !text.contains(" V 22 ") {
-                        out.push(format!("{id} C04 doc-literal variant=literal tags={tagstr} {d}"));
+    for what in ["uniqueid-layout", "sharedstring-index-endianness", "content-sourcetypes"] {
+        if let Some(h) = get(&format!("bytes only-{what} ")) {
+            if h != "SAME" {
+                if let Ok(b) = unhex(&h) {
+                    *st.entry(format!("c04_literal_files_{what}")).or_default() += 1;
+                    let bad = match real_dom_lines(&b) {
+                        Ok(got) => first_diff(&exp, &got),
+                        Err(e) => Some(format!("the reader fails: {}", cut(&e))),
+                    };
+                    match bad {
+                        Some(d) => out.push(format!("{id} C04 doc-{what} variant=literal-{what} tags={tagstr} the file written as the document literally says: {d}")),
+                        None => *st.entry(format!("c04_literal_files_{what}_read_alike")).or_default() += 1,
                     }
                 }
             }
